@@ -3,7 +3,7 @@
 S=/verif/seeded/$1; TIER=$2; shift 2
 cd /repo || exit 2
 [ -z "$(git status --porcelain)" ] || { echo "/repo not clean"; exit 2; }
-git apply --3way "$S/patch.diff" >/dev/null 2>&1 || { echo "patch does not apply"; git checkout -q -- .; exit 2; }
+git apply "$S/patch.diff" >/dev/null 2>&1 || { echo "$(basename $S): patch does not apply"; git reset -q --hard HEAD; exit 2; }
 git reset -q
 trap 'git -C /repo checkout -q -- .' EXIT INT TERM
 for P in "$@"; do
